@@ -1,11 +1,15 @@
 """C20 - file helpers agree with whole-file semantics and are idempotent."""
+import array
 import builtins
 import contextlib
+import ctypes
 import errno
 import hashlib
 import inspect
 import itertools
+import mmap
 import os
+import pathlib
 import random
 import shutil
 import tempfile
@@ -29,7 +33,11 @@ RULE = ('checksum: real files in a scratch directory, sizes k*c-1, k*c, k*c+1 (k
         'slash (ENOTDIR), component or path too long (ENAMETOOLONG), through a symlink loop (ELOOP), embedded NUL '
         '(ValueError), non-empty directory, unsearchable parent) for ensure_tree, delete_if_exists with the DEFAULT '
         'remover / os.unlink passed explicitly / spied unlink, rmdir, rmtree, and remove_path_on_error x body '
-        'exception; the outcome to decide on is that of the OS call made on its own on a twin path. A case is non-trivial when at least two chunks are fed or an error branch '
+        'exception; the outcome to decide on is that of the OS call made on its own on a twin path; path arguments '
+        'as str, bytes, pathlib.Path and a bare os.PathLike for every helper; write_to_tempfile: content as bytes, '
+        'bytes subclass, bytearray, memoryview (of bytes / bytearray / slice / cast / 2-d / non-contiguous / reversed), '
+        'array (B and wide items), mmap, ctypes array x sizes 0..70000 (300000 thorough) x existing / missing / '
+        'default directory, plus each of ensure_tree / mkstemp / os.write made to fail. A case is non-trivial when at least two chunks are fed or an error branch '
         'is taken (checksum), n > 0 or a fault is injected (last_bytes), an exception is injected or the path is not '
         'simply missing (ensure/delete); distinct by the canonical case tuple')
 TRUSTED_BASE = [
@@ -42,7 +50,11 @@ TRUSTED_BASE = [
     '+ lseek range check; outcome of os.makedirs / remove and of os.path.isdir are inputs of the model',
 ]
 UNMODELLED = [
-    'write_to_tempfile (mkstemp uniqueness, os.write): OS behaviour, no theorem; exercised by the search only',
+    'write_to_tempfile: that mkstemp returns a new, distinct file in the requested directory is OS behaviour (no '
+    'theorem, checked by the search on real directories); which calls are made, what is handed to os.write and what '
+    'escapes is modelled (writeToTempfile) and tied with every bytes-like content type; os.write short writes '
+    '(contents beyond 2 GiB) are not modelled; a non-contiguous memoryview is refused by os.write itself '
+    '(BufferError, empty file left behind): outside the property, the oracle only requires that no other bytes are stored',
     'the one-path file-system model (osMakedirs/osUnlink) behind the idempotence theorems is an assumption about '
     'the OS, compared with the real file system on every run',
     'the default remover os.unlink is bound at def time and cannot be replaced by a stub: it is tied to the model '
@@ -62,8 +74,8 @@ ASSUMPTIONS = [
 P = 2305843009213693951
 B = 1000003
 CHUNKS = [1, 2, 7, 64, 4096, 65536]
-OTHER_TAGS = {'KeyError': 1, 'RuntimeError': 2, 'TypeError': 3}
-OTHER_CLASSES = {1: KeyError, 2: RuntimeError, 3: TypeError}
+OTHER_TAGS = {'KeyError': 1, 'RuntimeError': 2, 'TypeError': 3, 'BufferError': 4}
+OTHER_CLASSES = {1: KeyError, 2: RuntimeError, 3: TypeError, 4: BufferError}
 N6 = 'N6'
 
 
@@ -192,6 +204,94 @@ def exc_specs(full=True):
 
 
 # --------------------------------------------------------------------------
+# argument types: every helper takes a path (str, bytes or os.PathLike); write_to_tempfile takes a bytes-like
+# content.  The type of the object is not part of the model (the code hands it to the OS call untouched), so each
+# type is one more implementation input for the same model request.
+
+class FsPath:
+    """a minimal os.PathLike that is neither str nor pathlib"""
+
+    def __init__(self, p):
+        self.p = p
+
+    def __fspath__(self):
+        return self.p
+
+
+PTYPES = ('str', 'bytes', 'pathlib', 'fspath')
+
+
+def as_ptype(p, ptype):
+    if ptype in (None, 'str'):
+        return p
+    if ptype == 'bytes':
+        return os.fsencode(p)
+    if ptype == 'pathlib':
+        return pathlib.Path(p)
+    if ptype == 'fspath':
+        return FsPath(p)
+    raise ValueError(ptype)
+
+
+class BytesSub(bytes):
+    pass
+
+
+CTYPES = ('bytes', 'bytes-subclass', 'bytearray', 'memoryview', 'memoryview-bytearray', 'memoryview-slice',
+          'memoryview-cast', 'memoryview-2d', 'memoryview-noncontiguous', 'memoryview-reversed', 'array-B',
+          'array-wide', 'mmap', 'ctypes-array')
+
+
+def build_content(ctype, data):
+    """an object of the given type whose buffer exposes exactly `data` (None: impossible for this size)"""
+    n = len(data)
+    if ctype == 'bytes':
+        return data
+    if ctype == 'bytes-subclass':
+        return BytesSub(data)
+    if ctype == 'bytearray':
+        return bytearray(data)
+    if ctype == 'memoryview':
+        return memoryview(data)
+    if ctype == 'memoryview-bytearray':
+        return memoryview(bytearray(data))
+    if ctype == 'memoryview-slice':
+        return memoryview(b'<<' + data + b'>>>')[2:2 + n]
+    if ctype == 'memoryview-cast':
+        return memoryview(data).cast('H' if n % 2 == 0 else 'b')
+    if ctype == 'memoryview-2d':
+        return memoryview(data).cast('B', shape=[n // 2, 2]) if n and n % 2 == 0 else None
+    if ctype == 'memoryview-noncontiguous':
+        return memoryview(bytes(b for x in data for b in (x, 0xEE)))[::2] if n > 1 else None
+    if ctype == 'memoryview-reversed':
+        return memoryview(data[::-1])[::-1] if n > 1 else None
+    if ctype == 'array-B':
+        return array.array('B', data)
+    if ctype == 'array-wide':
+        a = array.array('I' if n % 4 == 0 else 'b')
+        a.frombytes(data)
+        return a
+    if ctype == 'mmap':
+        if n == 0:
+            return None
+        m = mmap.mmap(-1, n)
+        m[:] = data
+        return m
+    if ctype == 'ctypes-array':
+        return (ctypes.c_ubyte * n).from_buffer_copy(data)
+    raise ValueError(ctype)
+
+
+def write_accepts(sc, obj):
+    """does os.write on its own take this object?  -> outcome spec ('ok' or the exception)"""
+    fd = os.open(sc.fresh('probe'), os.O_WRONLY | os.O_CREAT, 0o600)
+    try:
+        return outcome_spec(ref_call(os.write, fd, obj))
+    finally:
+        os.close(fd)
+
+
+# --------------------------------------------------------------------------
 # compute_file_checksum
 
 def toy_hash(data, h=0):
@@ -253,6 +353,7 @@ def impl_checksum(sc, case):
         path = os.path.join(sc.root, 'no-such-file')
     else:
         path = sc.file(content(case['size'], case['seed']), (case['size'], case['seed']))
+    path = as_ptype(path, case.get('ptype'))
     alg = case['alg']
     cs = case['cs']
     many = isinstance(cs, int) and cs > 0 and case['size'] // cs > 2000
@@ -355,6 +456,13 @@ def gen_checksum(ctx):
                     algs = algs[:1]
                 for a in algs:
                     out.append(({'op': 'checksum', 'size': s, 'seed': seed, 'cs': cs, 'alg': a}, 'checksum/alg=' + a))
+    for ptype in PTYPES[1:]:                                    # path argument types
+        for cs in (1, 7, 'D', 'N'):
+            for alg in ('toy', 'sha256'):
+                out.append(({'op': 'checksum', 'size': 20, 'seed': 13, 'cs': cs, 'alg': alg, 'ptype': ptype},
+                            'checksum/path=' + ptype))
+        out.append(({'op': 'checksum', 'size': 0, 'seed': 0, 'cs': 1, 'alg': 'toy', 'missing': True, 'ptype': ptype},
+                    'checksum/missing-file'))
     for cs in [1, 'D', 'N', -2, 0]:
         out.append(({'op': 'checksum', 'size': 0, 'seed': 0, 'cs': cs, 'alg': 'toy', 'missing': True}, 'checksum/missing-file'))
         out.append(({'op': 'checksum', 'size': 5, 'seed': 1, 'cs': cs, 'alg': 'nope'}, 'checksum/unknown-algorithm'))
@@ -405,7 +513,7 @@ def run_last_bytes(sc, case):
     """-> ('ok', data, unread) | ('err', canonical exception, same-object flag)"""
     fu = fileutils()
     data = content(case['size'], case['seed'])
-    path = sc.file(data, (case['size'], case['seed']))
+    path = as_ptype(sc.file(data, (case['size'], case['seed'])), case.get('ptype'))
     fault = case.get('fault')
     try:
         if fault:
@@ -476,6 +584,9 @@ def gen_last_bytes(ctx):
         for n in dict.fromkeys(nums):
             tag = 'beyond-off_t' if abs(n) > 2 ** 63 or n == -2 ** 63 else 'negative' if n < 0 else 'n>=size' if n >= s else 'n<size'
             out.append(({'op': 'last_bytes', 'size': s, 'seed': seed, 'num': n}, 'last_bytes/' + tag))
+    for ptype in PTYPES[1:]:
+        for n in (0, 3, 20, 21, 2 ** 63):
+            out.append(({'op': 'last_bytes', 'size': 20, 'seed': 13, 'num': n, 'ptype': ptype}, 'last_bytes/path=' + ptype))
     for spec in exc_specs():
         for s, n in ((5, 2), (0, 0)) if ctx.quick else ((5, 2), (0, 0), (5, 9), (64, 64)):
             out.append(({'op': 'last_bytes', 'size': s, 'seed': 7, 'num': n, 'fault': spec}, 'last_bytes/seek-fault'))
@@ -703,8 +814,9 @@ def run_fs(sc, case):
     -> (observed string, [(OS outcome, isdir(q), state of q)] per call)"""
     fu = fileutils()
     op, kind, depth = case['op'], case['kind'], case.get('depth', 1)
-    p = make_path(sc, kind, depth)
-    q = make_path(sc, kind, depth)
+    p0 = make_path(sc, kind, depth)
+    q0 = make_path(sc, kind, depth)
+    p, q = as_ptype(p0, case.get('ptype')), as_ptype(q0, case.get('ptype'))
     rm = case.get('remove', 'default')
     real = REMOVERS.get(rm, os.unlink)
     seen, parts = [], []
@@ -739,8 +851,8 @@ def run_fs(sc, case):
                 res += ' [body]'
             elif log and e is not log[-1]:                      # makedirs is recursive: outermost outcome is last
                 res += ' (a different exception object)'
-        seen.append((outcome_spec(ref), os.path.isdir(q), state_of(q)))
-        parts += [res, state_of(p)]
+        seen.append((outcome_spec(ref), os.path.isdir(q0), state_of(q0)))
+        parts += [res, state_of(p0)]
     return '|'.join(parts), seen
 
 
@@ -818,6 +930,11 @@ def gen_fs(ctx):
             out.append(({'op': 'fs_delete', 'kind': k, 'remove': rm}, 'fs/delete/%s/%s' % (rm, k)))
         for body in ('ok', 'val', 'other:2', 'os:13', 'os:2'):
             out.append(({'op': 'fs_rpoe', 'kind': k, 'body': body}, 'fs/remove_path_on_error/%s/%s' % (body.split(':')[0], k)))
+    for ptype in PTYPES[1:]:                                    # path argument types
+        for k in ('missing', 'file', 'dir', 'under-file', 'name-too-long', 'embedded-nul'):
+            out.append(({'op': 'fs_ensure', 'kind': k, 'ptype': ptype}, 'fs/ensure/path=' + ptype))
+            out.append(({'op': 'fs_delete', 'kind': k, 'remove': 'default', 'ptype': ptype}, 'fs/delete/path=' + ptype))
+            out.append(({'op': 'fs_rpoe', 'kind': k, 'body': 'val', 'ptype': ptype}, 'fs/remove_path_on_error/path=' + ptype))
     for d in (2, 4):
         for rm in ('default', 'direct'):
             out.append(({'op': 'fs_delete', 'kind': 'missing', 'depth': d, 'remove': rm}, 'fs/delete/%s/missing' % rm))
@@ -847,6 +964,11 @@ def oracle_tempfile(sc, case):
     base = sc.fresh('t')
     os.makedirs(base)
     data = content(case['size'], case['seed'])
+    ctype = case.get('ctype', 'bytes')
+    obj = build_content(ctype, data)
+    if obj is None:
+        return None                                              # no object of this type has this size
+    accepts = write_accepts(sc, obj)                              # os.write alone: does it take the object?
     where = case['where']
     prefix, suffix = case.get('prefix'), case.get('suffix')
     kw = {}
@@ -871,14 +993,28 @@ def oracle_tempfile(sc, case):
     with patched(tempfile, 'tempdir', base):                    # path=None / '' must not leak outside the scratch dir
         os.chdir(base)
         try:
+            dd = as_ptype(d, case.get('ptype')) if d else d
             for _ in range(2):
                 try:
-                    made.append(fu.write_to_tempfile(data, **({'path': d} if where != 'omitted' else {}), **kw))
+                    made.append(fu.write_to_tempfile(obj, **({'path': dd} if where != 'omitted' else {}), **kw))
                 except Exception as e:
-                    return 'write_to_tempfile raised %s: %s' % (type(e).__name__, e)
+                    if accepts == 'ok':
+                        return 'write_to_tempfile(%s content of %d bytes) raised %s: %s' % (
+                            ctype, len(data), type(e).__name__, e)
+                    made.append(None)
         finally:
             os.chdir(cwd)
-    made = [os.path.join(base, p) for p in made]
+    if accepts != 'ok':
+        # os.write itself refuses the object (non-contiguous view): outside "holding exactly the content", but
+        # whatever happens no file may hold anything other than the content
+        if os.path.isdir(target):
+            for n in set(os.listdir(target)) - set(before):
+                got = open(os.path.join(target, n), 'rb').read()
+                if got not in (b'', data):
+                    return ('%s content (%d bytes, refused by os.write): the new file holds %d other bytes %r'
+                            % (ctype, len(data), len(got), got[:40]))
+        return None
+    made = [os.path.join(base, os.fsdecode(p)) for p in made]
     if not os.path.isdir(target):
         return 'directory %s was not created' % where
     if made[0] == made[1]:
@@ -893,8 +1029,10 @@ def oracle_tempfile(sc, case):
             return 'name %r does not carry prefix %r / suffix %r' % (name, prefix, suffix)
         if not os.path.isfile(p) or os.path.islink(p):
             return 'not a regular file: ' + name
-        if open(p, 'rb').read() != data:
-            return 'content differs (%d bytes written, %d expected)' % (os.path.getsize(p), len(data))
+        got = open(p, 'rb').read()
+        if got != data:
+            return ('%s content of %d bytes: the file holds %d bytes %r, expected exactly the content %r'
+                    % (ctype, len(data), len(got), got[:40], data[:20]))
     for n, old in before.items():
         if open(os.path.join(target, n), 'rb').read() != old:
             return 'existing file %s was modified' % n
@@ -911,7 +1049,147 @@ def gen_tempfile(ctx):
             for prefix, suffix in ((None, None), ('pre-', '.conf'), ('', '')):
                 out.append({'op': 'tempfile', 'size': size, 'seed': 3, 'where': where, 'depth': depth,
                             'prefix': prefix, 'suffix': suffix})
+    # every bytes-like content type x sizes (incl. 0) x where the file goes
+    for ctype in CTYPES:
+        for size in (0, 1, 2, 7, 8, 4096, 70000) if ctx.quick else (0, 1, 2, 3, 4, 7, 8, 64, 4096, 65536, 70000, 300000):
+            for where, depth in (('existing', 0), ('missing', 2), ('none', 0)):
+                out.append({'op': 'tempfile', 'size': size, 'seed': 5, 'where': where, 'depth': depth,
+                            'prefix': None, 'suffix': None, 'ctype': ctype})
+    # path argument types
+    for ptype in ('pathlib', 'fspath'):
+        for where, depth in (('existing', 0), ('missing', 1), ('missing', 3)):
+            for ctype in ('bytes', 'bytearray'):
+                out.append({'op': 'tempfile', 'size': 9, 'seed': 5, 'where': where, 'depth': depth,
+                            'prefix': None, 'suffix': '.x', 'ctype': ctype, 'ptype': ptype})
     return out
+
+
+# write_to_tempfile against the model: the three calls it makes are observed (or made to fail) inside the harness
+# process; the model decides on their outcomes and on the bytes the content object exposes
+
+def run_tmpw(sc, case):
+    """-> (canonical observation, model request line) or None when no such object exists"""
+    fu = fileutils()
+    data = content(case['size'], case['seed'])
+    obj = build_content(case.get('ctype', 'bytes'), data)
+    if obj is None:
+        return None
+    base = sc.fresh('w')
+    os.makedirs(base)
+    where = case['where']
+    if where == 'existing':
+        d = base
+    elif where == 'missing':
+        d = os.path.join(base, *['m%d' % i for i in range(case.get('depth', 1))])
+    elif where == 'under-file':
+        with open(os.path.join(base, 'plain'), 'wb') as f:
+            f.write(b'x')
+        d = os.path.join(base, 'plain', 'sub')
+    else:
+        d = None if where == 'none' else ''
+    dd = as_ptype(d, case.get('ptype')) if d else d
+    inj = case.get('inject') or {}
+    excs = {k: make_exc(v) for k, v in inj.items()}
+    real = {'ensure': fu.ensure_tree, 'mk': tempfile.mkstemp, 'wr': os.write, 'close': os.close}
+    log = {'ensure': [], 'mk': [], 'wr': [], 'close': []}
+    made = []
+
+    def wrap(step):
+        def f(*a, **k):
+            if step == 'wr' and not (made and a and a[0] == made[0][0]):
+                return real[step](*a, **k)                       # not the descriptor under test
+            if step in excs:
+                log[step].append(excs[step])
+                raise excs[step]
+            try:
+                r = real[step](*a, **k)
+            except BaseException as e:
+                log[step].append(e)
+                raise
+            log[step].append(None)
+            if step == 'mk':
+                made.append(r)
+            return r
+        return f
+
+    def close(fd):
+        log['close'].append(fd)
+        return real['close'](fd)
+    cwd = os.getcwd()
+    with patched(fu, 'ensure_tree', wrap('ensure')), patched(tempfile, 'mkstemp', wrap('mk')), \
+            patched(os, 'write', wrap('wr')), patched(os, 'close', close), patched(tempfile, 'tempdir', base):
+        os.chdir(base)
+        try:
+            r = fu.write_to_tempfile(obj, **({'path': dd} if where != 'omitted' else {}))
+            res = 'returned' if made and os.fsdecode(r) == os.fsdecode(made[0][1]) else 'returned %r' % (r,)
+        except BaseException as e:
+            res = 'raised ' + canon_exc(e)
+            if any(e is not x for x in excs.values()) and any(canon_exc(x) == canon_exc(e) for x in excs.values()) \
+                    and not any(e is x for x in excs.values()):
+                res += ' (a different exception object)'
+        finally:
+            os.chdir(cwd)
+    if made:
+        path = os.path.join(base, os.fsdecode(made[0][1]))
+        try:
+            file = hexb(open(path, 'rb').read())
+        except OSError:
+            file = 'none'
+        closed = int(made[0][0] in log['close'])
+    else:
+        file, closed = 'none', 0
+    obs = '%s ensure=%d file=%s closed=%d' % (res, int(bool(log['ensure'])), file, closed)
+    spec = {k: outcome_spec(log[k][-1]) if log[k] else 'ok' for k in ('ensure', 'mk', 'wr')}
+    line = req('tmp', hexb(data), int(bool(d)), spec['ensure'], spec['mk'], spec['wr'])
+    return obs, line
+
+
+def gen_tmpw(ctx):
+    out = []
+    sizes = (0, 1, 2, 7, 4096, 70000) if ctx.quick else (0, 1, 2, 3, 4, 7, 8, 64, 4096, 65536, 70000, 300000)
+    for ctype in CTYPES:
+        for size in sizes:
+            for where, depth in (('existing', 0), ('missing', 2), ('none', 0)) + \
+                    ((('empty', 0), ('omitted', 0)) if size <= 2 else ()):
+                out.append(({'op': 'tmpw', 'size': size, 'seed': 4, 'where': where, 'depth': depth, 'ctype': ctype},
+                            'write_to_tempfile/content=' + ctype))
+    for ptype in PTYPES[2:]:
+        for where, depth in (('existing', 0), ('missing', 3)):
+            out.append(({'op': 'tmpw', 'size': 5, 'seed': 4, 'where': where, 'depth': depth, 'ctype': 'bytearray',
+                         'ptype': ptype}, 'write_to_tempfile/path=' + ptype))
+    for ctype in ('bytes', 'bytearray', 'memoryview'):
+        out.append(({'op': 'tmpw', 'size': 6, 'seed': 4, 'where': 'under-file', 'ctype': ctype},
+                     'write_to_tempfile/ensure_tree-fails'))
+        for step in ('ensure', 'mk', 'wr'):
+            for spec in ('os:13', 'os:28', 'os:17', 'os:2', 'os:N', 'val', 'other:2'):
+                for where in ('existing', 'none'):
+                    out.append(({'op': 'tmpw', 'size': 6, 'seed': 4, 'where': where, 'ctype': ctype,
+                                 'inject': {step: spec}}, 'write_to_tempfile/inject-' + step))
+    return out
+
+
+def oracle_tmpw(sc, case):
+    """the property on one observed run: nothing but the content ever ends up in the file; when all calls succeed
+    the file holds exactly the content; an injected failure escapes unchanged"""
+    r = run_tmpw(sc, case)
+    if r is None:
+        return None
+    obs = r[0]
+    data = content(case['size'], case['seed'])
+    res, _, rest = obs.partition(' ensure=')
+    file = rest.split(' file=')[1].split(' closed=')[0]
+    inj = case.get('inject') or {}
+    if file not in ('none', hexb(data)) and not (file == '-' and (inj.get('wr') or res.startswith('raised'))):
+        return '%s content of %d bytes: the file holds %r, expected exactly the content' % (
+            case.get('ctype', 'bytes'), len(data), common.unhexb(file)[:40])
+    for step, spec in inj.items():
+        if step == 'ensure' and case['where'] in ('none', 'empty', 'omitted'):
+            continue
+        if res != 'raised ' + canon_exc(make_exc(spec)):
+            return '%s failed with %s; write_to_tempfile %s' % (step, spec, res)
+    if file != 'none' and not rest.endswith('closed=1'):
+        return 'the descriptor of the new file was left open'
+    return None
 
 
 # --------------------------------------------------------------------------
@@ -922,7 +1200,7 @@ LINE = {'checksum': line_checksum, 'last_bytes': line_last_bytes, 'ensure': line
         'fs_ensure': lambda c: req('fs_ensure', c['kind']), 'fs_delete': lambda c: req('fs_delete', c['kind'])}
 ORACLE = {'checksum': oracle_checksum, 'last_bytes': oracle_last_bytes, 'ensure': oracle_ensure,
           'delete': oracle_delete, 'fs_ensure': oracle_fs, 'fs_delete': oracle_fs, 'fs_rpoe': oracle_fs,
-          'tempfile': oracle_tempfile}
+          'tempfile': oracle_tempfile, 'tmpw': oracle_tmpw}
 
 
 def is_n6(case):
@@ -1046,6 +1324,26 @@ def correspondence(ctx):
             if res != rep:
                 out.append(Disagreement(dict(case, call=k, os_outcome=spec), res, rep,
                                         where='decision on the outcome of the real OS call'))
+        # 5. write_to_tempfile: every bytes-like content type x sizes x path argument, and each of its three calls
+        #    made to fail; the model request carries the bytes the object exposes and the outcomes of the calls
+        runs = []
+        for case, tag in gen_tmpw(ctx):
+            r = run_tmpw(sc, case)
+            if r is not None:
+                runs.append((case, tag, r[0], r[1]))
+        for (case, tag, obs, _), rep in zip(runs, ctx.driver.ask_many([r[3] for r in runs])):
+            ctx.evaluations += 1
+            ctx.count('corr/' + tag)
+            ctx.count('tmpw/' + obs.split(' ensure=')[0].split(':')[0])
+            if case.get('ctype', 'bytes') != 'bytes' or case.get('inject'):
+                ctx.nontrivial(tuple(sorted((k, str(v)) for k, v in case.items())))
+            key = ('tmpw', case.get('ctype'), bool(case.get('inject')))
+            sampled = ctx.__dict__.setdefault('_sampled', set())
+            if key not in sampled and case['size'] in (2, 6):
+                sampled.add(key)
+                ctx.sample({'case': case, 'implementation': obs[:160], 'model': rep[:160]}, 44)
+            if obs != rep:
+                out.append(Disagreement(case, obs[:600], rep[:600]))
     return out
 
 
@@ -1103,6 +1401,13 @@ def gen_search(ctx, full):
     cases += [c for c, _ in gen_decisions(ctx)]
     cases += [c for c, _ in gen_fs(ctx)]
     cases += gen_tempfile(ctx)
+    cases += [c for c, _ in gen_tmpw(ctx)]
+    # path argument types for the reading helpers
+    for ptype in PTYPES[1:]:
+        for cs in (1, 7, 'D'):
+            cases.append({'op': 'checksum', 'size': 20, 'seed': 13, 'cs': cs, 'alg': 'sha256', 'ptype': ptype})
+        for num in (0, 3, 20, 21):
+            cases.append({'op': 'last_bytes', 'size': 20, 'seed': 13, 'num': num, 'ptype': ptype})
     return cases
 
 
@@ -1129,7 +1434,8 @@ def search(ctx, seeds, full=False):
             if is_n6(case):
                 kind = 'last_bytes beyond off_t'
             else:
-                kind = case['op'] if case['op'] in ('ensure', 'delete') else '%s/%s' % (
+                kind = case['op'] if case['op'] in ('ensure', 'delete') else \
+                    'write_to_tempfile/content-type' if case.get('ctype', 'bytes') != 'bytes' and not case.get('inject') else '%s/%s' % (
                     case['op'], case.get('kind') or ('seek-fault' if case.get('fault') else None) or case.get('where') or
                                   ('cs' if case['op'] == 'checksum' else 'n'))
             if kind in kinds:
@@ -1173,6 +1479,11 @@ def replay(ctx, payload):
             print('implementation:', IMPL[op](sc, case)[:1000])
             rep = ctx.driver.ask(LINE[op](case))
             print('model         :', (view_checksum(case, rep) if op == 'checksum' else rep)[:1000])
+        elif op == 'tmpw':
+            r = run_tmpw(sc, case)
+            if r:
+                print('implementation:', r[0][:1000])
+                print('model         :', ctx.driver.ask(r[1])[:1000])
         elif op in ('fs_ensure', 'fs_delete', 'fs_rpoe'):
             obs, seen = run_fs(sc, case)
             print('implementation:', obs)
@@ -1195,8 +1506,9 @@ LEVEL_TEXT = ('Machine-checked proof (Lean 4) over a hand-written model of fileu
               'directory / ENOENT and re-raise every other exception unchanged, for every errno, and are idempotent on a '
               'one-path file-system model; remove_path_on_error lets the block\'s exception out iff removal succeeded or '
               'found nothing, otherwise the remover\'s error. Partial: last_bytes_spec_partial holds for n <= 2^63 (beyond that the code '
-              'raises ValueError: known finding N6, proved as last_bytes_beyond_off_t); write_to_tempfile is OS behaviour '
-              '(mkstemp) and has no theorem, it is exercised by the failing-input search only.')
+              'raises ValueError: known finding N6, proved as last_bytes_beyond_off_t); write_to_tempfile: the file holds '
+              'exactly the content whenever its three calls succeed and nothing else otherwise (write_to_tempfile_exact/_spec); '
+              'that mkstemp yields a new distinct file is OS behaviour, checked on real directories by the search only.')
 LEVEL_NOTE = ('Trusted: Lean kernel; axioms propext/Quot.sound/Classical.choice at most (audited each run); the hand model and '
               'the correspondence harness; hashlib streaming law, BufferedReader.read/seek semantics on regular files, and '
               'the outcome of os.makedirs/remove/isdir are parameters of the model, exercised on real files in a scratch '
